@@ -25,6 +25,7 @@ class Top(Elaboratable):
         self.extra = extra
         self.ctr = Signal(16)
         self.rename = False        # set by simulate(): the DUTs live in a clock domain that is not called "sync"
+        self.reset_less = False    # ... and that domain has no reset at all (only in cases without a warm reset)
         self.unclocked = ()        # names of purely combinational DUTs that are given a domain whose clock never ticks
         self.rst = Signal(name="vmon_rst")      # synchronous reset of the whole design, pulsed by benches that model it
 
@@ -38,8 +39,10 @@ class Top(Elaboratable):
             # what a SoC with several clock domains does with every peripheral: DomainRenamer. The renamed domain
             # runs off the very same clock and reset, so cycle-accurate monitors are unaffected
             from amaranth import ClockDomain, ClockSignal, ResetSignal, DomainRenamer
-            m.domains.vmon = cd = ClockDomain("vmon")
-            m.d.comb += [cd.clk.eq(ClockSignal("sync")), cd.rst.eq(ResetSignal("sync"))]
+            m.domains.vmon = cd = ClockDomain("vmon", reset_less=self.reset_less)
+            m.d.comb += cd.clk.eq(ClockSignal("sync"))
+            if not self.reset_less:
+                m.d.comb += cd.rst.eq(ResetSignal("sync"))
             wrap = lambda sub: DomainRenamer("vmon")(sub)
         if self.unclocked:
             # a component specified as same-cycle pass-through needs no clock: whatever domain it is instantiated
@@ -145,22 +148,41 @@ def simulate(top, bench, mon=None):
         top.rename = True
         if mon is not None:
             mon.count("runs_in_a_renamed_clock_domain")
+        if not reset_plan(1000) and zlib.crc32(("rl:" + CURRENT_CASE_SEED).encode()) % 2 == 0:
+            # a clock domain without a reset (ClockDomain(reset_less=True)): registers rely on their initial values
+            top.reset_less = True
+            if mon is not None:
+                mon.count("runs_in_a_reset_less_clock_domain")
     if zlib.crc32(CURRENT_CASE_SEED.encode()) % 4 == 0:
         from amaranth.hdl import Fragment
         Fragment.get(top, None)
         if mon is not None:
             mon.count("runs_on_second_elaboration")
-    sim = Simulator(top)
-    sim.add_clock(1e-6)
-
     async def wrapped(ctx):
         try:
             await bench(ctx)
         except Stop:
             pass
 
-    sim.add_testbench(wrapped)
-    sim.run()
+    try:
+        sim = Simulator(top)
+        sim.add_clock(1e-6)
+        sim.add_testbench(wrapped)
+        sim.run()
+    except Exception as e:
+        if not (isinstance(top, Top) and top.reset_less and mon is not None and not mon.counters.get("cycles_started")):
+            raise
+        # the design could not be built in a reset-less domain: does it build in an ordinary one?
+        from amaranth.hdl import Fragment
+        top.reset_less = False
+        try:
+            Fragment.get(top, None)
+        except Exception:
+            raise e
+        mon.violations.append({"monitor": "elaborates_in_reset_less_domain", "mechanism": "reset-less-domain",
+                               "msg": f"the design elaborates in an ordinary clock domain but not in one declared "
+                                      f"reset_less: {type(e).__name__}: {str(e)[:200]}", "cycle": 0, "detail": {},
+                               "trace_tail": []})
 
 
 def decoy(rng, build, p=0.3):
